@@ -3,9 +3,11 @@ CONSTANT MaxI = 12
 CONSTANT MaxK = 5
 CONSTANT MaxD = 2
 CONSTANT MaxS = 3
+CONSTANT EmitCases = TRUE
 CONSTANT Mutant = "none"
 INVARIANT TypeOK
 INVARIANT ExactWhereClaimed
 INVARIANT Candidates
 INVARIANT Partition
+INVARIANT Cases
 CHECK_DEADLOCK FALSE
